@@ -4,6 +4,7 @@ package main
 import (
 	"fmt"
 	"os"
+	"runtime/debug"
 	"time"
 
 	"verif/internal/props"
@@ -11,6 +12,8 @@ import (
 )
 
 func main() {
+	// the checks allocate millions of short-lived VMs; the default GC target makes 16 workers spend most of their time in GC
+	debug.SetGCPercent(800)
 	if len(os.Args) < 3 {
 		fmt.Fprintln(os.Stderr, "usage: vcheck <property-id> <quick|thorough> | vcheck replay <file>")
 		os.Exit(2)
